@@ -83,19 +83,24 @@ Theorem c09_uidsearch_set_exact : forall (s : seqset) (uids : list Z),
 Proof. exact uidsearch_set_exact. Qed.
 Print Assumptions c09_uidsearch_set_exact.
 
-(** plain COPY as dispatched is BAD for every command line (class plain_copy) *)
-Theorem c09_plain_copy_always_bad : forall (tag w set mbox : str) (rest : list str) (total : Z),
-  equal_fold w (S_ "COPY") = true -> plain_copy (tag :: w :: set :: mbox :: rest) total = None.
-Proof. exact plain_copy_always_bad. Qed.
-Print Assumptions c09_plain_copy_always_bad.
+(** plain COPY as dispatched (fix F1): the handler reads the set argument, and
+    addresses exactly the denoted messages; BAD only when nothing is addressed *)
+Theorem c09_plain_copy_set_exact : forall (tag w mbox : str) (rest : list str) (s : seqset) (total : Z),
+  wf s = true -> 0 <= total <= max_int64 ->
+  match plain_copy (tag :: w :: print s :: mbox :: rest) total with
+  | None => addressed s total = []
+  | Some l => forall i, In i l <-> In i (addressed s total)
+  end.
+Proof. exact plain_copy_set_exact. Qed.
+Print Assumptions c09_plain_copy_set_exact.
 
-(** ---- refutations: every finding class contains a violating input ---- *)
-Theorem c09_refuted_plain_copy : exists parts s n,
-  classify_copy parts = Some F_plain_copy /\ wf s = true /\ nth_error parts 2 = Some (print s)
-  /\ copy_ok s n (plain_copy parts n) = false.
-Proof. exists [S_ "a"; S_ "COPY"; S_ "1"; S_ "Sent"], [One (Num 1)], 3. vm_compute. repeat split; reflexivity. Qed.
-Print Assumptions c09_refuted_plain_copy.
+(** FETCH n (single number; after the fix it is answered under the number n) *)
+Theorem c09_fetch_single_exact : forall (k : Z) (uids : list Z), 1 <= k < 4294967296 ->
+  fetch_inline (itoa k) uids = Some (expected_fetch [One (Num k)] uids).
+Proof. exact fetch_single_exact. Qed.
+Print Assumptions c09_fetch_single_exact.
 
+(** ---- refutations: every remaining finding class contains a violating input ---- *)
 Definition fetch_refuted (cls : finding) : Prop := exists s uids,
   wf s = true /\ classify_fetch s (Z.of_nat (length uids)) = Some cls
   /\ fetch_ok s uids (fetch_inline (print s) uids) = false.
@@ -115,9 +120,6 @@ Print Assumptions c09_refuted_fetch_reversed.
 Theorem c09_refuted_fetch_beyond : fetch_refuted F_fetch_beyond.
 Proof. exists [Range (Num 7) Star], [1;2;3]. vm_compute. repeat split; reflexivity. Qed.
 Print Assumptions c09_refuted_fetch_beyond.
-Theorem c09_refuted_fetch_single_label : fetch_refuted F_fetch_single_label.
-Proof. exists [One (Num 3)], [1;2;3]. vm_compute. repeat split; reflexivity. Qed.
-Print Assumptions c09_refuted_fetch_single_label.
 
 Definition search_refuted (cls : finding) : Prop := exists s n,
   wf s = true /\ classify_search s n = Some cls /\ search_ok s n (search_set (print s) n) = false.
@@ -172,6 +174,14 @@ Theorem c09_refuted_noop_notices : exists old new,
   classify_noop old new = Some F_noop_notices /\ noop_ok old new = false.
 Proof. exists [1;2;3], [2;3]. vm_compute. split; reflexivity. Qed.
 Print Assumptions c09_refuted_noop_notices.
+
+(** ---- regression facts about the repaired defects (old behaviour) ---- *)
+Example c09_regression_copy_word_is_no_set : forall total, parse_seqset_db (S_ "COPY") total = [].
+Proof. exact copy_word_is_no_set. Qed.
+Example c09_copy_example :
+  plain_copy [S_ "a"; S_ "COPY"; S_ "3:1,2"; S_ "Sent"] 5 = Some [1; 2; 3; 2]
+  /\ fetch_inline (S_ "3") [4; 6; 9] = Some [(3, 9)].
+Proof. vm_compute. split; reflexivity. Qed.
 
 (** ---- non-vacuity ---- *)
 Example c09_wf_example : wf [Range (Num 4) (Num 2); One Star; Range (Num 7) Star] = true.
